@@ -157,13 +157,35 @@ EvGap ==
               THEN <<V("GapCountsTheBlocksStrictlyBetween", [a |-> e.a, b |-> e.b, got |-> e.count])>> ELSE <<>>))
   /\ l' = l + 1 /\ UNCHANGED K
 
+(* VerifyBlockRangeGaps: the blocks a last certificate stands for are its own range, or - when it is in error - the blocks
+   before it; a new range that touches or overlaps them has no gap (nothing is looked up), otherwise exactly the blocks
+   strictly between are looked up *)
+EvVGap ==
+  /\ l <= Len(Trace) /\ Trace[l].ev = "vgap"
+  /\ LET e == Trace[l]
+         af == Val(e.a[1])
+         at == Val(e.a[2])
+         cf == IF e.mode = 2 THEN 0 ELSE af
+         ct == IF e.mode = 2 THEN Max(af - 1, 0) ELSE at
+         nf == Val(e.b[1])
+         nt == Val(e.b[2])
+         touch == nt + 1 >= cf /\ ct + 1 >= nf
+     IN
+     IF ~(af <= at /\ nf <= nt) THEN UNCHANGED viol
+     ELSE IF touch
+     THEN viol' = Add(IF e.asked THEN <<V("NoGapBetweenTouchingOrOverlappingRanges", [last |-> e.a, mode |-> e.mode, new |-> e.b, lookedup |-> e.q])>> ELSE <<>>)
+     ELSE viol' = Add(IF ~e.asked \/ Val(e.q[1]) # Min(nt, ct) + 1 \/ Val(e.q[2]) # Max(nf, cf) - 1
+                      THEN <<V("GapIsExactlyTheBlocksStrictlyBetween", [last |-> e.a, mode |-> e.mode, new |-> e.b, asked |-> e.asked, lookedup |-> e.q])>>
+                      ELSE <<>>)
+  /\ l' = l + 1 /\ UNCHANGED K
+
 Finish ==
   /\ l = Len(Trace) + 1
   /\ PrintT(<<"VIOL", ToJson(viol)>>)
   /\ PrintT(<<"DONE", ToJson([lines |-> Len(Trace)])>>)
   /\ l' = l + 1 /\ UNCHANGED <<K, viol>>
 
-Next == EvConsts \/ EvSize \/ EvLimit \/ EvRange \/ EvGap \/ Finish
+Next == EvConsts \/ EvSize \/ EvLimit \/ EvRange \/ EvGap \/ EvVGap \/ Finish
 Spec == Init /\ [][Next]_vars
 
 HW == TLCSet(1, IF l > TLCGet(1) THEN l ELSE TLCGet(1))
